@@ -6,58 +6,99 @@ import (
 	"os"
 
 	"verifharness/internal/drv"
+	"verifharness/internal/report"
 	"verifharness/internal/routing"
 )
 
+type checkFn func(run *report.Run) error
+
+var checks = map[string]checkFn{}
+
 func main() {
 	if len(os.Args) < 2 {
-		fmt.Fprintln(os.Stderr, "usage: vcheck <cmd> [flags]")
+		fmt.Fprintln(os.Stderr, "usage: vcheck check <Cxx> [--tier quick|thorough] [--seed n] [--lean-status file] [--replay file] | vcheck routing-diff …")
 		os.Exit(2)
 	}
-	cmd := os.Args[1]
-	fs := flag.NewFlagSet(cmd, flag.ExitOnError)
+	if p := os.Getenv("VERIF_DRIVER"); p != "" {
+		drv.Path = p
+	}
+	switch os.Args[1] {
+	case "check":
+		if len(os.Args) < 3 {
+			fmt.Fprintln(os.Stderr, "usage: vcheck check <Cxx>")
+			os.Exit(2)
+		}
+		prop := os.Args[2]
+		fs := flag.NewFlagSet("check", flag.ExitOnError)
+		tier := fs.String("tier", "quick", "quick|thorough")
+		seed := fs.Uint64("seed", 1, "PRNG seed")
+		leanStatus := fs.String("lean-status", "", "JSON written by bin/lean-status")
+		replay := fs.String("replay", "", "replay file")
+		fs.Parse(os.Args[3:])
+		fn, ok := checks[prop]
+		if !ok {
+			fmt.Fprintln(os.Stderr, "no check registered for", prop)
+			os.Exit(2)
+		}
+		var lean *report.LeanStatus
+		if *leanStatus != "" {
+			var err error
+			if lean, err = report.LoadLean(*leanStatus); err != nil {
+				fmt.Fprintln(os.Stderr, "cannot read lean status:", err)
+				os.Exit(2)
+			}
+		}
+		if *replay != "" {
+			os.Exit(doReplay(prop, *replay))
+		}
+		run := report.NewRun(prop, *tier, *seed, lean)
+		if err := fn(run); err != nil {
+			// the machinery itself failed (driver rejected a line, harness error): that is a broken
+			// correspondence, reported as such
+			fmt.Fprintln(os.Stderr, "check error:", err)
+			run.AddViolation(report.Violation{Kind: "correspondence", NoInput: true, What: "the check could not run: " + err.Error(), Theorem: "correspondence machinery of " + prop})
+		}
+		os.Exit(run.Finish())
+	case "routing-diff":
+		routingDiff(os.Args[2:])
+	default:
+		fmt.Fprintln(os.Stderr, "unknown command", os.Args[1])
+		os.Exit(2)
+	}
+}
+
+func routingDiff(args []string) {
+	fs := flag.NewFlagSet("routing-diff", flag.ExitOnError)
 	seed := fs.Uint64("seed", 1, "PRNG seed")
 	n := fs.Int("n", 200, "number of configurations")
 	per := fs.Int("per", 20, "requests per configuration")
 	router := fs.String("router", "curly", "curly|jsr")
-	driver := fs.String("driver", "", "driver binary")
 	show := fs.Int("show", 10, "disagreements to print")
-	fs.Parse(os.Args[2:])
-	if *driver != "" {
-		drv.Path = *driver
-	} else if p := os.Getenv("VERIF_DRIVER"); p != "" {
-		drv.Path = p
-	}
-	switch cmd {
-	case "routing-diff":
-		o := routing.Opts{Router: *router, AllowRe: true, AllowSuf: *router == "curly", AllowWild: true, AllowVerb: *router == "curly",
-			RootVars: true, RootRe: true, Conds: true, Media: true, MaxSvcs: 4, MaxRoutes: 6, Adversarial: true}
-		cases, err := routing.Run(*seed, *n, *per, o)
-		if err != nil {
-			fmt.Fprintln(os.Stderr, err)
-			os.Exit(2)
-		}
-		dis := 0
-		tags := map[string]int{}
-		for _, c := range cases {
-			tags[c.Tag]++
-			if c.RealS != c.ModelS {
-				dis++
-				if dis <= *show {
-					fmt.Printf("DISAGREE real=%s model=%s\n  %s\n  %s\n  path=%q\n", c.RealS, c.ModelS, c.CfgLine, c.ReqLine, c.Req.Path)
-					for _, s := range c.Cfg.Services {
-						fmt.Printf("   svc %d root=%q\n", s.ID, s.Root)
-						for _, r := range s.Routes {
-							fmt.Printf("      route %d %s %q cons=%v prod=%v conds=%v noct=%v\n", r.ID, r.Method, r.Rel, r.Consumes, r.Produces, r.Conds, r.Noct)
-						}
-					}
-					fmt.Printf("   req %+v\n", c.Req)
-				}
-			}
-		}
-		fmt.Printf("cases=%d disagreements=%d tags=%v\n", len(cases), dis, tags)
-	default:
-		fmt.Fprintln(os.Stderr, "unknown command", cmd)
+	fs.Parse(args)
+	o := routing.FullOpts(*router)
+	cases, err := routing.Run(*seed, *n, *per, o)
+	if err != nil {
+		fmt.Fprintln(os.Stderr, err)
 		os.Exit(2)
 	}
+	dis := 0
+	tags := map[string]int{}
+	specs := map[string]int{}
+	for _, c := range cases {
+		tags[c.Tag]++
+		for k, v := range c.Spec {
+			specs[k+"="+v]++
+			if k != "WF" && v != "1" && c.Spec["WF"] == "1" && specs["shown"] < *show {
+				specs["shown"]++
+				fmt.Printf("SPEC-FAIL %s real=%s model=%s\n  %v\n", k, c.RealS, c.ModelS, routing.Human(c.Cfg, c.Req))
+			}
+		}
+		if c.RealS != c.ModelS {
+			dis++
+			if dis <= *show {
+				fmt.Printf("DISAGREE real=%s model=%s\n  %v\n", c.RealS, c.ModelS, routing.Human(c.Cfg, c.Req))
+			}
+		}
+	}
+	fmt.Printf("cases=%d disagreements=%d tags=%v specs=%v skipped=%d\n", len(cases), dis, tags, specs, routing.SkippedBuild)
 }
